@@ -256,7 +256,7 @@ theorem C02_ternary_correct (c t f : Expr) (base : Nat) (cst : CState) (r : List
 /-! ### statements, end to end -/
 
 open EvalFilter.Exec in
-/-- **Assignments, if / else-if / else, while, foreach, switch and return run exactly as the language defines.**  For every
+/-- **Assignments, compound assignments, if / else-if / else, while, foreach, switch and return run exactly as the language defines.**  For every
     script built from these over value-producing expressions (any size and nesting), compiled without the
     optimizer, for every host object, environment and host-function table: the run ends with exactly the
     outcome of the big-step semantics `execSs` - the statements the language selects, in order, a loop
